@@ -60,6 +60,10 @@ def make_objective(name, np, ub, rettype):
         # the unconstrained optimum lies beyond the upper bounds: every out-of-box step towards it is an improvement
         tgt = ubc + 1.0 + 0.5 * np.abs(ubc)
         return lambda x: conv(np.sum((x - tgt) ** 2))
+    if name == 'infpen':
+        # a hard constraint: +inf on one side of a hyperplane through the box, the sphere elsewhere
+        mid = 0.5 * float(ubc[0, 0]) if ubc.size else 0.0
+        return lambda x: conv(np.inf) if float(np.asarray(x).reshape(-1)[0]) > mid else conv(np.sum(x ** 2))
     if name == 'tiny':
         # every value (and so every improvement) is far below 1e-10: a strict improvement is one however small
         return lambda x: conv(1e-13 * np.sum((x - 0.25 * ubc) ** 2))
@@ -649,6 +653,17 @@ def record_run(cfg):
                     lo, hi = (0.0, 1.0) if cfg['space'] == 'hyper' else (float(a.lb[j]), float(a.ub[j]))
                     w = (hi - lo) or 1.0
                     a.position[j] = hi + 1.5 * w if hook_rng.random() < 0.5 else lo - 1.5 * w
+            elif cfg['hook'] == 'relist' and len(s.agents) > 0:
+                # a *new* list object through the public setter (here: the population kept ranked by fitness, stable), as a
+                # restart / ranking hook would do; trees follow their agents
+                order = sorted(range(len(s.agents)), key=lambda q: (fnum(s.agents[q].fit) != fnum(s.agents[q].fit), fnum(s.agents[q].fit)))
+                if hook_rng.random() < 0.3:
+                    order = list(reversed(order))
+                s.agents = [s.agents[q] for q in order]
+                if REC.kind == 'GP':
+                    s.trees = [s.trees[q] for q in order]
+                if REC.local is not None and REC.kind in SWARM:
+                    REC.local[:] = REC.local[order]
             elif cfg['hook'] == 'swap' and len(s.agents) > 1:
                 i, j = hook_rng.sample(range(len(s.agents)), 2)
                 s.agents[i], s.agents[j] = s.agents[j], s.agents[i]
